@@ -92,6 +92,18 @@ pub fn run(args: &Args) -> Report {
             }
         }
     }
+    // the smallest drivers: every interleaving modulo commutation (sleep sets); every reachable quiescent state is judged
+    for (a, b) in [((1u32, 1u32), (1u32, 1u32)), ((1, 3), (1, 1)), ((2, 32), (1, 4))] {
+        let st = vec![StreamSpec {
+            tag: 1,
+            opener: 0,
+            opener_plan: EndPlan::Seq(vec![Op::Burst(3, 1), Op::Shutdown, Op::ReadToEof(4)]),
+            acceptor_plan: EndPlan::Seq(vec![Op::ReadToEof(4), Op::W(1), Op::Shutdown]),
+        }];
+        let cfg = XferCfg { a, b, cap: 0, streams: st, stream_buffer: 1, one_byte_frames: false, dgram_pingpong: 0, dgram_buffer: 1, drop_mux_when_writers_done: None, horizon: 20_000 };
+        let label = format!("tiny, all interleavings | {}", cfg.describe());
+        cases.push(Case { try_unbounded: true, max_k: 1, label, exec: Box::new(move |r| xfer::exec(&cfg, &or, r)) });
+    }
     let plan = Plan {
         ks: if thorough { vec![0, 1, 2] } else { vec![0, 1] },
         env: 0,
